@@ -183,8 +183,8 @@ func (m *ModuleInstance) buildElementInstances(elements []ElementSegment) {
 			m.ElementInstances[i] = inst
 			for j, idx := range inits {
 				if index, ok := unwrapElementInitGlobalReference(idx); ok {
-					global := m.Globals[index]
-					inst[j] = Reference(global.Val)
+					lo, _ := m.Globals[index].Value()
+					inst[j] = Reference(lo)
 				} else {
 					if idx != ElementInitNullReference {
 						inst[j] = m.Engine.FunctionInstanceReference(idx)
@@ -207,8 +207,8 @@ func (m *ModuleInstance) applyElements(elems []ElementSegment) {
 		if elem.OffsetExpr.Opcode == OpcodeGlobalGet {
 			// Ignore error as it's already validated.
 			globalIdx, _, _ := leb128.LoadUint32(elem.OffsetExpr.Data)
-			global := m.Globals[globalIdx]
-			offset = uint32(global.Val)
+			lo, _ := m.Globals[globalIdx].Value()
+			offset = uint32(lo)
 		} else {
 			// Ignore error as it's already validated.
 			o, _, _ := leb128.LoadInt32(elem.OffsetExpr.Data)
@@ -240,8 +240,8 @@ func (m *ModuleInstance) applyElements(elems []ElementSegment) {
 
 				var ref Reference
 				if index, ok := unwrapElementInitGlobalReference(init); ok {
-					global := m.Globals[index]
-					ref = Reference(global.Val)
+					lo, _ := m.Globals[index].Value()
+					ref = Reference(lo)
 				} else {
 					ref = m.Engine.FunctionInstanceReference(index)
 				}
@@ -563,8 +563,9 @@ func executeConstExpressionI32(importedGlobals []*GlobalInstance, expr *Constant
 		ret, _, _ = leb128.LoadInt32(expr.Data)
 	case OpcodeGlobalGet:
 		id, _, _ := leb128.LoadUint32(expr.Data)
-		g := importedGlobals[id]
-		ret = int32(g.Val)
+		// Read through Value(): the engine may own the storage of a (mutable) imported global.
+		lo, _ := importedGlobals[id].Value()
+		ret = int32(lo)
 	}
 	return
 }
@@ -591,19 +592,21 @@ func (g *GlobalInstance) initialize(importedGlobals []*GlobalInstance, expr *Con
 	case OpcodeGlobalGet:
 		id, _, _ := leb128.LoadUint32(expr.Data)
 		importedG := importedGlobals[id]
+		// Read through Value(): the engine may own the storage of a (mutable) imported global.
+		lo, hi := importedG.Value()
 		switch importedG.Type.ValType {
 		case ValueTypeI32:
-			g.Val = uint64(uint32(importedG.Val))
+			g.Val = uint64(uint32(lo))
 		case ValueTypeI64:
-			g.Val = importedG.Val
+			g.Val = lo
 		case ValueTypeF32:
-			g.Val = importedG.Val
+			g.Val = lo
 		case ValueTypeF64:
-			g.Val = importedG.Val
+			g.Val = lo
 		case ValueTypeV128:
-			g.Val, g.ValHi = importedG.Val, importedG.ValHi
+			g.Val, g.ValHi = lo, hi
 		case ValueTypeFuncref, ValueTypeExternref:
-			g.Val = importedG.Val
+			g.Val = lo
 		}
 	case OpcodeRefNull:
 		switch expr.Data[0] {
